@@ -257,7 +257,7 @@ func (rn *run) headEvent() {
 	}
 	for _, h := range rn.hs {
 		if changed {
-			h.causes = append(h.causes, cause{rn.w.curEvent, "head-event-reorg"})
+			h.causes = append(h.causes, cause{Event: rn.w.curEvent, Tag: "head-event-reorg"})
 		}
 		rn.probe(h, "head-event")
 	}
@@ -310,7 +310,7 @@ func (rn *run) schedIndexNotice() {
 	rn.cnt["index_notices"]++
 	rn.anomalies++
 	for _, h := range rn.hs {
-		h.causes = append(h.causes, cause{rn.w.curEvent, "index-notice"})
+		h.causes = append(h.causes, cause{Event: rn.w.curEvent, Tag: "index-notice"})
 		rn.probe(h, "index-notice")
 	}
 	rn.w.mu.Unlock()
